@@ -77,6 +77,7 @@ type e2Machine struct {
 	nreader  int
 	nreset   int
 	nforeign int
+	ntxfail  int
 	dead     map[int]bool // clients whose collection was reset (they would have to reconnect)
 	held     map[int][]heldResp
 	nfault   int
@@ -265,6 +266,7 @@ func (m *e2Machine) Enabled() []pt.Action {
 						continue
 					}
 					as = append(as, pt.Action{Op: "foreign", R: c.idx, T: k, K: "collection"})
+					as = append(as, pt.Action{Op: "foreign", R: c.idx, T: k, K: "connect"})
 					for _, bits := range []int{0, 1, 2, 3} {
 						as = append(as, pt.Action{Op: "foreign", R: c.idx, T: k, K: "duid", P: bits})
 					}
@@ -305,6 +307,10 @@ func (m *e2Machine) Enabled() []pt.Action {
 			// (a subscriber may work on its provisional datatype before its first sync: the API allows it and
 			// the protocol discards that work when the subscription completes)
 			w.reps = []*Replica{d.rep}
+			if lc := localCalls(w, 0, m.p.Alpha); strings.Contains(m.p.Alpha, "txfail") && len(lc) > 0 && m.ntxfail < 1 {
+				// a transaction that gives up after its first call (rolled back: nothing of it may remain, also not in the numbering)
+				as = append(as, pt.Action{Op: "tx", R: c.idx, T: k + "|", Fail: true, Sub: []pt.Action{lc[0]}})
+			}
 			for _, a := range localCalls(w, 0, m.p.Alpha) {
 				a.R = c.idx
 				if a.T != "" {
@@ -595,6 +601,9 @@ func (m *e2Machine) Apply(a pt.Action) (v *pt.Violation) {
 		la.T = path
 		la.R = 0
 		w := &World{P: WParams{Type: c.typ}, typ: typeOf(c.typ), reps: []*Replica{d.rep}}
+		if a.Op == "tx" && a.Fail {
+			m.ntxfail++
+		}
 		out := w.Local(la)
 		m.drain()
 		m.last = fmt.Sprintf("%s|%s", out.Err, out.Ret)
@@ -884,7 +893,7 @@ func (m *e2Machine) checkNotify(a pt.Action, pubsBefore int, opsBefore map[strin
 
 func (m *e2Machine) Key() (string, bool) {
 	h := sha256.New()
-	fmt.Fprintf(h, "DB\n%s\nF%d\nR%d\n", m.sys.DB.Dump(), m.nfault, m.nreader)
+	fmt.Fprintf(h, "DB\n%s\nF%d\nR%d\nT%d\n", m.sys.DB.Dump(), m.nfault, m.nreader, m.ntxfail)
 	for i := 0; i < len(m.cls); i++ {
 		for _, hr := range m.held[i] {
 			b, _ := proto.Marshal(hr.pack)
@@ -1293,6 +1302,26 @@ func (m *e2Machine) foreignRequest(c *e2client, a pt.Action) *pt.Violation {
 	}
 	req := model.NewPushPullMessage(0, &model.Client{CUID: c.cuid, Collection: c.coll}, pack)
 	switch a.K {
+	case "connect":
+		// the client registers again, naming the other collection: refused, and nothing stored may change
+		before := m.sys.DB.Dump()
+		var err error
+		if !callWithDeadline(func() {
+			ctx, cancel := gocontext.WithCancel(gocontext.Background())
+			defer cancel()
+			_, err = m.sys.Svc().ProcessClient(ctx, model.NewClientMessage(&model.Client{CUID: c.cuid, Alias: c.h.Name, Collection: other, SyncType: model.SyncType_MANUALLY}))
+		}) {
+			exitWith(viol("C16:request-never-answered:foreign", "foreign registration %s never returned", a))
+		}
+		m.drain()
+		m.last = fmt.Sprintf("foreign connect err=%v", err != nil)
+		if err == nil {
+			return viol("C17:foreign-registration-accepted", "%s: a client registered in %q registered again in %q without being refused", a, c.coll, other)
+		}
+		if after := m.sys.DB.Dump(); after != before {
+			return viol("C17:refused-foreign-registration-changed-store", "%s: refused (%v) but stored data changed; first difference at %s", a, err, firstDiff(after, before))
+		}
+		return nil
 	case "collection":
 		req.Collection = other
 	case "duid":
